@@ -225,19 +225,22 @@ static std::string apply(C& c, const Op& o)
     else if (n == "insert_range" || n == "insert_it")
     {
         size_t r;
+        // the range is handed over as an rvalue or as an lvalue (forwarding reference), chosen from the call's content
+        // so that a case replays identically
+        const bool lv = ((o.kvs.size() * 31 + (o.kvs.empty() ? 0 : (size_t)std::get<1>(o.kvs[0])) + (size_t)o.a) & 1) != 0;
         if constexpr (KD == TLRU)
         {
             std::vector<std::tuple<ms, Key, V>> vec;
             for (auto& [t, k, v] : o.kvs)
                 vec.emplace_back(ms{t}, k, V(v));
-            r = c.insert_range(std::move(vec), mk_allow(o.a));
+            r = lv ? c.insert_range(vec, mk_allow(o.a)) : c.insert_range(std::move(vec), mk_allow(o.a));
         }
         else if constexpr (KD == UTSET)
         {
             std::vector<Key> vec;
             for (auto& [t, k, v] : o.kvs)
                 vec.push_back(k);
-            r = c.insert_range(std::move(vec), mk_allow(o.a));
+            r = lv ? c.insert_range(vec, mk_allow(o.a)) : c.insert_range(std::move(vec), mk_allow(o.a));
         }
         else
         {
@@ -249,10 +252,10 @@ static std::string apply(C& c, const Op& o)
                 if (n == "insert_it")
                     r = c.insert(vec.begin(), vec.end(), mk_allow(o.a));
                 else
-                    r = c.insert_range(std::move(vec), mk_allow(o.a));
+                    r = lv ? c.insert_range(vec, mk_allow(o.a)) : c.insert_range(std::move(vec), mk_allow(o.a));
             }
             else
-                r = c.insert_range(std::move(vec), mk_allow(o.a));
+                r = lv ? c.insert_range(vec, mk_allow(o.a)) : c.insert_range(std::move(vec), mk_allow(o.a));
         }
         out << "n" << r;
     }
